@@ -170,7 +170,7 @@ def k_process(ctx, width, ncalls):
 def k_content(ctx, width, content_hex):
     sc, PSC, SF = _imp()
     content = bytes.fromhex(content_hex)
-    case = {"k": "content", "width": width, "content": content_hex}
+    case = {"k": "content", "width": width, "content_hex": content_hex}
     ctx.case("content", (width, content), sample=dict(case, text=repr(content)))
     d = tempfile.mkdtemp(prefix="spv-c19c-")
     try:
